@@ -31,6 +31,7 @@ ASSUMPTIONS = [
     "Every other layout may be refused with an exception but never recorded as a different lambda.",
     "Interactive sources (no file) are not modelled.",
 ]
+ATHERIS_RUNS = 6000  # thorough tier only: coverage-guided supplement (vf/fuzz.py)
 BUDGET = {"quick": (6, 800), "thorough": (16, 6000)}
 
 OPS = ["Select", "Where", "SelectMany"]
